@@ -172,6 +172,47 @@ Example C04_main_nonvacuous :
     r_start rf = (2, 4) /\ r_end rf = (2, 4).
 Proof. exact main_nonvacuous. Qed.
 
+(* the loop of read_table over the content of table:table: the elements that hold the rows
+   (table:table-header-rows, table:table-rows, table:table-row-group nested to any depth) and the
+   ones beside them are transparent; the rows come out in document order *)
+Theorem C04_row_containers_transparent : forall (its rest : list titem),
+  forallb item_ok its = true ->
+  read_table_items (its ++ TClose k_table_table :: rest) = read_xtable (rows_of its).
+Proof. exact ods_containers_transparent. Qed.
+
+Theorem C04_row_containers_independent : forall (its1 its2 rest1 rest2 : list titem),
+  forallb item_ok its1 = true -> forallb item_ok its2 = true ->
+  rows_of its1 = rows_of its2 ->
+  read_table_items (its1 ++ TClose k_table_table :: rest1) =
+  read_table_items (its2 ++ TClose k_table_table :: rest2).
+Proof. exact ods_containers_independent. Qed.
+
+Theorem C04_table_items_main : forall (its rest : list titem) (rows : list (row_elem data str)),
+  forallb item_ok its = true ->
+  map_outcome read_xrow (rows_of its) = Ok rows ->
+  counts_pos rows = true -> extent_ok rows = true ->
+  read_table_items (its ++ TClose k_table_table :: rest) = Ok (ods_spec_table rows).
+Proof. exact ods_table_items_main. Qed.
+
+Theorem C04_no_panic_table_loop : forall (its : list titem) (acc : list xrow),
+  table_loop its acc <> Panic /\ table_loop its acc <> OutOfFuel.
+Proof. exact table_loop_total. Qed.
+
+(* a row group inside a row group between two plain rows, a column element in front *)
+Example C04_containers_nonvacuous :
+  let r := mkXRow [] [mkXCell false [(a_value_type, v_float); (a_value, [49])] []] in
+  let g := [104] in
+  let its := [TOther; TOpen [99] []; TClose [99]; TRow r; TOpen g []; TOpen g []; TRow r; TClose g;
+              TRow r; TClose g; TRow r] in
+  forallb item_ok its = true /\ rows_of its = [r; r; r; r] /\
+  exists rv rf, read_table_items (its ++ [TClose k_table_table]) = Ok (rv, rf) /\
+                r_start rv = (0, 0) /\ r_end rv = (3, 0).
+Proof. vm_compute. repeat split. eexists; eexists; repeat split. Qed.
+
+Check C04_row_containers_transparent : forall (its rest : list titem),
+  forallb item_ok its = true ->
+  read_table_items (its ++ TClose k_table_table :: rest) = read_xtable (rows_of its).
+
 Check C04_ods_grid_main :
   forall rows : list (row_elem data str),
     counts_pos rows = true -> extent_ok rows = true ->
@@ -198,3 +239,7 @@ Print Assumptions C04_typing_canonical.
 Print Assumptions C04_sheet_limits_inside_guard.
 Print Assumptions C04_no_panic_read_table.
 Print Assumptions C04_row_limit.
+Print Assumptions C04_row_containers_transparent.
+Print Assumptions C04_row_containers_independent.
+Print Assumptions C04_table_items_main.
+Print Assumptions C04_no_panic_table_loop.
